@@ -64,7 +64,7 @@ ENGINES = [
 ]
 
 _E1_NOTE = ("Trusted: the interposed scheduler (engine/vsched.c) models pthread mutex/condvar semantics faithfully; sequential consistency at synchronisation-step granularity "
-            "(data-race freedom is what C15 checks on the same programs); no spurious wake-ups; bounds as listed in the evidence (threads, sections per thread, preemptions).")
+            "(data-race freedom is what C15 checks on the same programs); spurious wake-ups only in the programs marked +spurious (one per execution); bounds as listed in the evidence (threads, sections per thread, preemptions).")
 
 META = {
     "C01": {"engine": "vsched", "design_ref": "DESIGN.md §4 C01", "technique": "stateless model checking of the implementation: exhaustive preemption-bounded schedule enumeration under a controlled scheduler",
@@ -106,8 +106,9 @@ META = {
                     "ConcurrentSubjectRouter and five argument signatures including by-value class types.",
             "note": _E2_NOTE},
     "C10": {"engine": "seqx", "design_ref": "DESIGN.md §4 C10", "technique": "bounded-exhaustive enumeration of re-entrant callback programs on the implementation under ASan, compared with a reference simulation of the rounds",
-            "text": "For 1..3 (thorough 4) observers every assignment of one action per callback (subscribe new, unsubscribe/mute/unmute/invalidate any target incl. itself, nested notify up to depth 2) and every relevant initial mute mask is run for two rounds on the real Subject "
-                    "under AddressSanitizer; the recorded call log must be explained by the round semantics of the property (membership fixed at entry, removed-before-turn skipped, added-during-round first called next round); what the property leaves open is left open.",
+            "text": "Every assignment of an action list per callback (subscribe new, unsubscribe/mute/unmute/invalidate any target incl. itself, nested notify up to depth 2; lists of up to 6 actions for one observer, 2 for two, 1 for three; thorough 7/3/2 and four observers) and every relevant initial "
+                    "mute mask is run for two rounds on the real Subject under AddressSanitizer; the recorded call log (each call tagged with the notify that made it) must be explained by the round semantics of the property (membership fixed at entry, removed-before-turn skipped, "
+                    "added-during-round first called next round, invalidated never called again); observer objects are destroyed exactly when they leave; what the property leaves open is left open.",
             "note": _E2_NOTE},
     "C13": {"engine": "seqx", "design_ref": "DESIGN.md §4 C13", "technique": "explicit-state model checking of the implementation: breadth-first search over router histories with shrink transitions checked against removal rules, exists/depth against the stored key set",
             "text": "The C06 state graph with shrink(p) for ~60 concrete, regex and wildcard patterns as transitions: after every shrink deliveries for the whole probe set are unchanged (compared with the model in the new state), no key with a live subscription at or below it disappears, "
@@ -115,19 +116,21 @@ META = {
             "note": _E2_NOTE},
     "C16": {"engine": "seqx", "design_ref": "DESIGN.md §4 C16", "technique": "explicit-state model checking of the implementation: breadth-first search over operator histories with state merging on (value, subscribers)",
             "text": "Histories of =, +=, -=, *=, /=, ++x, x++, --x, x--, apply (identity/set/add), subscribe and unsubscribe (2 subscriber slots) are explored breadth-first to depth 6 (thorough 8) from several initial values for Observable<int>, "
-                    "Observable<float, NearEq(0.5)> and Observable<std::string>; after every step the notifications each subscriber received (exactly one with the post-value iff !eq(old,new); always for ++/--), return values and value() are compared with the model.",
+                    "Observable<float, NearEq(0.5)> and Observable<std::string>; after every step the notifications each subscriber received (exactly one with the post-value iff !eq(old,new); always for ++/--), return values and value() are compared with the model. "
+                    "Plus re-entrant histories (a subscriber assigns to the Observable from inside its callback, every subscriber order, <= 3 top-level operations): every notification carries the then-current value() and every notified recorder holds value().",
             "note": _E2_NOTE},
     "C17": {"engine": "seqx", "design_ref": "DESIGN.md §4 C17", "technique": "bounded-exhaustive enumeration of inputs and call sequences on the implementation against a byte-vector-with-position model (real files on tmpfs, ASan)",
             "text": "Every byte string of length <= 4 (thorough 5) over {00,FF,CR,LF,'a',1A} x every split into write calls, every write/append mode onto {nothing, existing file} through all three write overloads, read back in both read modes through read(), readStr(), size() "
-                    "and chunked read(); large patterned files across stdio buffer boundaries; every sequence of <= 3 (thorough 4) seek/tell/size/read calls against a position model and std::filesystem; NotFound/NotFile errors.",
+                    "and chunked read(); large patterned files across stdio buffer boundaries; every sequence of <= 3 (thorough 4) seek/tell/size/read calls against a position model and std::filesystem; every session of <= 4 (thorough 5) calls on one File object over two paths; NotFound/NotFile errors; no case may leave a file descriptor open.",
             "note": _E2_NOTE + " The kernel's tmpfs is the environment; I/O errors are not injected."},
     "C18": {"engine": "seqx", "design_ref": "DESIGN.md §4 C18", "technique": "bounded-exhaustive enumeration of directory configurations and path strings on the implementation against std::filesystem (tmpfs, ASan)",
             "text": "Every directory forest with <= 4 (thorough 5) entries, depth <= 3, files of 0/1/4097 bytes and names with spaces, dots and non-ASCII bytes is created; exists/isFile/isDirectory/size/listChildren of every node and of missing siblings (absolute, relative, ./, trailing separator) "
-                    "are compared with std::filesystem; DirectoryVisitor is checked for every directory (absolute/relative/nested/missing/unused/explicit restore); join/getPathName/getParentDirectory identities for every path of <= 3 segments with leading/trailing/doubled separators.",
+                    "are compared with std::filesystem; DirectoryVisitor is checked for every directory (absolute/relative/nested/missing/unused/explicit restore); join/getPathName/getParentDirectory identities for every path of <= 3 segments with leading/trailing/doubled separators; working directories with long absolute paths; the queries on a tree must not leave file descriptors open.",
             "note": _E2_NOTE + " No symlinks or special files; process runs as root."},
     "C19": {"engine": "seqx", "design_ref": "DESIGN.md §4 C19", "technique": "complete enumeration of a structured bounded input space on the implementation under ASan, compared with an independent parser over the public tables",
             "text": "All language codes and names x all country codes and names x four suffixes (~0.8M strings), every string of length <= 6 (thorough 7) over {e,n,G,B,_,.,x}, and language/country parts of every length 0..80 across the 64-byte buffer with delimiters in every order; "
-                    "each result is compared with an independent reading of 'language_COUNTRY[.charset]' (code, all names in table order, pointer identity with table entries; otherwise the documented fallback with error set).",
+                    "each result is compared with an independent reading of 'language_COUNTRY[.charset]' (code, all names in table order, pointer identity with table entries; otherwise the documented fallback with error set); "
+                    "plus every sequence of 2..3 (thorough 4) calls over 12 representative inputs, each in a fresh process: the answer must not depend on earlier calls.",
             "note": _E2_NOTE},
     "C07": {"engine": "vsched", "design_ref": "DESIGN.md §4 C07", "technique": "stateless model checking of the implementation: exhaustive preemption-bounded schedule enumeration, task life-cycle oracle over the event log",
             "text": "Every schedule (owner + workers, every notify_one target) with <= c preemptions of owner scripts over start/clear/stop/wait with 1-4 instrumented tasks and 1-3 workers runs on the real ThreadPool, plain and under AddressSanitizer. "
@@ -135,18 +138,18 @@ META = {
             "note": _E1_NOTE + " Non-expiring workers as the property states; ThreadPool runs with new_delete_type_mismatch=0 (PooledThread is deleted through Thread*, out of scope)."},
     "C08": {"engine": "vsched", "design_ref": "DESIGN.md §4 C08", "technique": "stateless model checking of the implementation: exhaustive preemption-bounded schedule enumeration with deadlock detection around stop()",
             "text": "Same owner scripts as C07, scheduling points also after every unlock. A deadlock with the owner inside stop() is a violation; after stop(): getThreadCount()==0, no task running, every queued task destroyed, restart works; "
-                    "the worker count never exceeds maxThreadCount.",
+                    "the worker count never exceeds maxThreadCount; a task submitted to a restarted pool must be executed (a lost task after stop()+start() is a C08 violation); variants with one spurious wake-up of a waiting worker.",
             "note": _E1_NOTE},
     "C15": {"engine": "vsched", "design_ref": "DESIGN.md §2.5, §4 C15", "technique": "stateless model checking of the implementation under ThreadSanitizer: happens-before race detection on every enumerated schedule",
             "text": "The Resource, ThreadPool (incl. worker expiry, update(), getters) and ConcurrentSubjectRouter programs are built with -fsanitize=thread; the scheduler itself is uninstrumented and hands off through raw futexes, so it adds no happens-before edges; "
-                    "modelled mutexes are announced with __tsan_acquire/__tsan_release. Every schedule up to the preemption bound is executed and any ThreadSanitizer report is a violation.",
+                    "modelled mutexes are announced with __tsan_acquire/__tsan_release. Router programs include concurrent readers that share one const RoutingKey object (built afresh per execution). Every schedule up to the preemption bound is executed and any ThreadSanitizer report is a violation.",
             "note": "Trusted: ThreadSanitizer's vector-clock detector (bounded access history per location) and the announcement of modelled mutexes; harness bookkeeping lives in uninstrumented code. Bounds as listed in the evidence."},
     "C20": {"engine": "vsched", "design_ref": "DESIGN.md §4 C20", "technique": "stateless model checking of the implementation: complete schedule enumeration of starter vs started thread, liveness-canary oracle, plain and AddressSanitizer",
             "text": "For every callable kind (function pointer with 0/2 lvalue arguments, small/large functor, lambda, Runnable, constructor form) ALL schedules of the starter and the new thread are executed; the starter overwrites its dead stack after start() returns. "
                     "The invoked object must be alive (canary + registry, and ASan stack-use-after-return), invoked exactly once, isFinished() true only after the callable returned, join() after that.",
             "note": _E1_NOTE},
     "C12": {"engine": "vsched", "design_ref": "DESIGN.md §4 C12", "technique": "stateless model checking of the implementation: exhaustive preemption-bounded schedule enumeration, no-park and rendezvous oracles",
-            "text": "Reader-only programs (2-6 threads), mixed programs and rendezvous programs (k readers queue behind a writer and must meet at a barrier inside the read section). A read request whose call overlaps no write request must never park; "
-                    "a rendezvous that deadlocks means queued readers were not admitted together.",
+            "text": "Reader-only programs (2-6 threads), mixed programs and rendezvous programs (k readers queue behind a writer and must meet at a barrier inside the read section; with late readers that arrive while the admitted batch is still waking up; with one spurious wake-up). "
+                    "A read request whose call overlaps no write request must never park; a rendezvous that deadlocks means queued readers were not admitted together.",
             "note": _E1_NOTE},
 }
